@@ -60,8 +60,11 @@ def parse_fmap(tok):
 
 
 def go_round(x):
+    """math.Round (half away from zero), computed exactly: abs(x)+0.5 in floating point rounds 0.49999999999999994
+    up to 1.0, which Go's math.Round does not"""
     import math
-    return int(math.floor(abs(x) + 0.5)) * (1 if x >= 0 else -1)
+    q = abs(Fraction(x)) + Fraction(1, 2)
+    return int(math.floor(q)) * (1 if x >= 0 else -1)
 
 
 class C06(Prop):
